@@ -224,6 +224,16 @@ fn collect_scans(
             }
         };
 
+        // A scan filter can carry a subquery (`w > (SELECT MAX(i) FROM t)`);
+        // the tables and columns it reads must be gathered too.
+        if let Some(filter) = &scan.filter {
+            let mut subs = Vec::new();
+            collect_subquery_plans(filter, &mut subs);
+            for sub in subs {
+                collect_scans(ctx, sub, required)?;
+            }
+        }
+
         // Merge with what other scans of the same table (self-joins,
         // subqueries) already require. Widest wins: None absorbs everything.
         match (required.get_mut(&scan.table_name), cols) {
@@ -241,10 +251,95 @@ fn collect_scans(
         return Ok(());
     }
 
+    // Subqueries that were not decorrelated into joins live inside this node's
+    // EXPRESSIONS, not among its children; the statement re-bound over the
+    // gathered tables still reads their columns.
+    let mut subs = Vec::new();
+    match plan {
+        LogicalPlan::Filter(f) => collect_subquery_plans(&f.predicate, &mut subs),
+        LogicalPlan::Project(p) => p
+            .exprs
+            .iter()
+            .for_each(|e| collect_subquery_plans(e, &mut subs)),
+        LogicalPlan::Aggregate(a) => a
+            .group_by
+            .iter()
+            .chain(a.aggregates.iter())
+            .for_each(|e| collect_subquery_plans(e, &mut subs)),
+        LogicalPlan::Join(j) => {
+            for (l, r) in &j.on {
+                collect_subquery_plans(l, &mut subs);
+                collect_subquery_plans(r, &mut subs);
+            }
+            if let Some(f) = &j.filter {
+                collect_subquery_plans(f, &mut subs);
+            }
+        }
+        LogicalPlan::Sort(s) => s
+            .order_by
+            .iter()
+            .for_each(|o| collect_subquery_plans(&o.expr, &mut subs)),
+        _ => {}
+    }
+    for sub in subs {
+        collect_scans(ctx, sub, required)?;
+    }
+
     for child in plan.children() {
         collect_scans(ctx, child, required)?;
     }
     Ok(())
+}
+
+/// Plans embedded in an expression as scalar / IN / EXISTS subqueries.
+fn collect_subquery_plans<'a>(e: &'a crate::planner::Expr, out: &mut Vec<&'a LogicalPlan>) {
+    use crate::planner::Expr;
+    match e {
+        Expr::ScalarSubquery(p) => out.push(p.as_ref()),
+        Expr::Exists { subquery, .. } => out.push(subquery.as_ref()),
+        Expr::InSubquery { expr, subquery, .. } => {
+            collect_subquery_plans(expr, out);
+            out.push(subquery.as_ref());
+        }
+        Expr::BinaryExpr { left, right, .. } => {
+            collect_subquery_plans(left, out);
+            collect_subquery_plans(right, out);
+        }
+        Expr::UnaryExpr { expr, .. } | Expr::Cast { expr, .. } | Expr::Alias { expr, .. } => {
+            collect_subquery_plans(expr, out)
+        }
+        Expr::Aggregate { args, .. } | Expr::ScalarFunc { args, .. } => {
+            args.iter().for_each(|a| collect_subquery_plans(a, out))
+        }
+        Expr::Case {
+            operand,
+            when_then,
+            else_expr,
+        } => {
+            if let Some(o) = operand {
+                collect_subquery_plans(o, out);
+            }
+            for (w, t) in when_then {
+                collect_subquery_plans(w, out);
+                collect_subquery_plans(t, out);
+            }
+            if let Some(el) = else_expr {
+                collect_subquery_plans(el, out);
+            }
+        }
+        Expr::InList { expr, list, .. } => {
+            collect_subquery_plans(expr, out);
+            list.iter().for_each(|i| collect_subquery_plans(i, out));
+        }
+        Expr::Between {
+            expr, low, high, ..
+        } => {
+            collect_subquery_plans(expr, out);
+            collect_subquery_plans(low, out);
+            collect_subquery_plans(high, out);
+        }
+        _ => {}
+    }
 }
 
 /// Column names an expression mentions.
